@@ -1,0 +1,14 @@
+//go:build !verif
+
+// Package verifhook provides hook points for the external verification harness.
+// Without the "verif" build tag every hook is an empty function.
+package verifhook
+
+// At marks a hook point. It does nothing unless built with the verif tag.
+func At(_ string, _ ...string) {}
+
+// Observe reports an observation. It does nothing unless built with the verif tag.
+func Observe(_ string, _ ...string) {}
+
+// ObserveStatus reports a status-record rewrite. It does nothing unless built with the verif tag.
+func ObserveStatus(_ string, _ int, _ int64, _ int, _ int64) {}
